@@ -200,8 +200,14 @@ EffDeadline(e) ==
 
 WaitEnter(m0, e) ==
   LET m1 == DueCheck(m0)
-      m2 == Chk(m1, m1.inMain /\ ~m1.opaque, ~(m1.quit \/ UserObjs(m1) = 0), "C07:poll-without-objs")
       eff == EffDeadline(e)
+      (* with nothing of the program's registered any more, the loop may still make one
+         non-blocking pass directly after the callback that removed the last object (an
+         internal task of the library, e.g. the local event delivery task, may be queued);
+         it must not block, and must not come round again *)
+      lastPass == ~IsNone(eff) /\ TsLeq(eff, e.now) /\ m1.cbSince
+      m2 == Chk(m1, m1.inMain /\ ~m1.opaque,
+                ~m1.quit /\ (UserObjs(m1) = 0 => lastPass), "C07:poll-without-objs")
       tasks == \E k \in Obj : m2.tk[k].st = "reg"
       m3 == Chk(m2, tasks, ~IsNone(eff) /\ TsLeq(eff, e.now), "C06:nonzero-timeout")
       hasT == RegTimers(m3) # {}
